@@ -524,6 +524,29 @@ def r23model(ctx: Ctx) -> RuleReport:
     for r in rets:
         ret = r.value
         key = f'{inv.fq}: returns (target, invert_role(role), source)'
+        if isinstance(ret, ast.Call) and isinstance(ret.func, ast.Attribute) and norm(ret.func.value) == 'self' and len(ret.args) == 1 \
+                and norm(ret.args[0]) == tp:
+            # invert hands the triple to another method of the model: what that method is depends on the model class (overrides)
+            mname = ret.func.attr
+            base = repo.cls(M, 'Model')
+            ident = None
+            for c in repo.all_classes():
+                if c is base or c.is_subclass_of(base):
+                    meth = c.find_method(mname)
+                    if meth is None:
+                        continue
+                    for rr in _ret_stmts(meth):
+                        if isinstance(rr.value, ast.Name) and len(meth.positional) > 1 and rr.value.id == meth.positional[1] \
+                                and not [x for x in ctx.cg.local_assigns(meth).get(rr.value.id, []) if isinstance(x, ast.AST)] \
+                                and not facts_ex(ctx, meth, rr):
+                            ident = (c, meth, rr)
+            if ident:
+                c, meth, rr = ident
+                rep.violation(key, inv.loc(r), f'invert returns self.{mname}(triple), and {meth.fq} returns its argument unchanged: under {c.name} a triple is "inverted" '
+                              f'without swapping source and target (and without changing the role), so the inversion laws fail for that model')
+            else:
+                rep.undecided(key, inv.loc(r), norm(ret))
+            continue
         if not (isinstance(ret, ast.Tuple) and len(ret.elts) == 3):
             rep.undecided(key, inv.loc(r), norm(ret))
             continue
